@@ -49,27 +49,37 @@ RIME_API RimeModule* RimeFindModule(const char* module_name) {
 void RimeGetSharedDataDirSecure(char* dir, size_t buffer_size) {
   string string_path = Service::instance().deployer().shared_data_dir.string();
   strncpy(dir, string_path.c_str(), buffer_size);
+  if (buffer_size > 0)
+    dir[buffer_size - 1] = '\0';
 }
 
 void RimeGetUserDataDirSecure(char* dir, size_t buffer_size) {
   string string_path = Service::instance().deployer().user_data_dir.string();
   strncpy(dir, string_path.c_str(), buffer_size);
+  if (buffer_size > 0)
+    dir[buffer_size - 1] = '\0';
 }
 
 void RimeGetPrebuiltDataDirSecure(char* dir, size_t buffer_size) {
   string string_path =
       Service::instance().deployer().prebuilt_data_dir.string();
   strncpy(dir, string_path.c_str(), buffer_size);
+  if (buffer_size > 0)
+    dir[buffer_size - 1] = '\0';
 }
 
 void RimeGetStagingDirSecure(char* dir, size_t buffer_size) {
   string string_path = Service::instance().deployer().staging_dir.string();
   strncpy(dir, string_path.c_str(), buffer_size);
+  if (buffer_size > 0)
+    dir[buffer_size - 1] = '\0';
 }
 
 void RimeGetSyncDirSecure(char* dir, size_t buffer_size) {
   string string_path = Service::instance().deployer().sync_dir.string();
   strncpy(dir, string_path.c_str(), buffer_size);
+  if (buffer_size > 0)
+    dir[buffer_size - 1] = '\0';
 }
 
 const char* RimeGetVersion() {
